@@ -622,7 +622,11 @@ impl rustc_driver::Callbacks for Cb {
                     ));
                 }
                 DefKind::Impl { .. } => {
-                    let derive = tcx.def_span(did).from_expansion();
+                    // produced by a derive / attribute macro (a `macro_rules!` that spells out an
+                    // impl is hand-written code, e.g. a table of TypeUrl impls)
+                    let sp0 = tcx.def_span(did);
+                    let derive = sp0.from_expansion()
+                        && !matches!(sp0.ctxt().outer_expn_data().kind, rustc_span::hygiene::ExpnKind::Macro(rustc_span::hygiene::MacroKind::Bang, _));
                     if derive {
                         n_derive_impls += 1;
                     }
